@@ -127,6 +127,22 @@ func c05Run(ops string, timeout time.Duration) string {
 						}
 						carriers[i].mu.Unlock()
 					}
+				} else if e[0] == 'S' {
+					// S<i>+<j>+...=<n>: the carriers i, j, ... together have been written n downstream bytes
+					f := strings.SplitN(e[1:], "=", 2)
+					n, _ := strconv.Atoi(f[1])
+					tot := 0
+					for _, is := range strings.Split(f[0], "+") {
+						i, _ := strconv.Atoi(is)
+						if i < len(carriers) {
+							carriers[i].mu.Lock()
+							tot += len(carriers[i].down)
+							carriers[i].mu.Unlock()
+						}
+					}
+					if tot < n {
+						ok = false
+					}
 				} else if e[0] == 'd' {
 					f := strings.SplitN(e[1:], "=", 2)
 					i, _ := strconv.Atoi(f[0])
